@@ -175,9 +175,13 @@ class SetEncoder(encoder.SequenceEncoder):
 
             namedTypes = value.componentType
 
-            for idx, component in enumerate(value.values()):
+            for idx, component in enumerate(self._components(value)):
                 if namedTypes:
                     namedType = namedTypes[idx]
+
+                    if component is None:
+                        # OPTIONAL or DEFAULT component never assigned
+                        continue
 
                     if namedType.isOptional and not component.isValue:
                             continue
